@@ -72,7 +72,7 @@ def tracegen_stage(tier_, key):
                             "bytes_hex": bytes(r["bytes"]).hex()[:160], "n_events": len(r["ev"]),
                             "claimed_opcodes": [e["op"] for e in r["ev"] if e["op"] >= 0][:40]})
         return {"findings": out, "coverage": cov, "samples": samples}
-    return cached(key, "tracegen_" + tier_, compute)
+    return cached(key, "tracegen_%s_%d" % (tier_, seed()), compute)
 
 # ---------------------------------------------------------------------------
 # model checking of the design (depends on the spec only, not on /repo)
@@ -95,7 +95,6 @@ def spec_key(extra=""):
     for f in sorted(os.listdir(SPEC)):
         if f.endswith((".tla", ".cfg")):
             h.update(f.encode()); h.update(open(os.path.join(SPEC, f), "rb").read())
-    h.update(extra.encode())
     return "spec-" + h.hexdigest()[:20]
 
 def parse_coverage(out):
@@ -120,7 +119,7 @@ def mc_run(name):
         return {"name": name, "ok": ok, "violations": viol, "generated": st["generated"], "distinct": st["distinct"],
                 "wall_s": round(wall, 1), "coverage_by_action": {k: v[1] for k, v in cov.items()},
                 "tail": out[-1500:] if not ok else ""}
-    return cached(spec_key(name), "mc_" + name, compute)
+    return cached(spec_key(), "mc_" + name, compute)
 
 def mc_stage(tier_, names):
     res = []
@@ -198,4 +197,51 @@ def edges_stage(tier_, key):
                              "edges": total, "states_expanded": sum(s["states"] for s in summary), "tlc_states": states,
                              "gen_wall_s": round(t_gen, 1), "tlc_wall_s": round(t_tlc, 1), "exhaustive_to_depth": True},
                 "samples": samples[:4]}
-    return cached(key, "edges_" + tier_, compute)
+    return cached(key, "edges_%s_%d" % (tier_, seed()), compute)
+
+# ---------------------------------------------------------------------------
+# C12 at design level: shortest reachability witnesses from the model, replayed into the code
+
+REACH_RUNS = {"MC_Reach0": ("quick", "thorough"), "MC_Reach5q": ("quick",), "MC_Reach15": ("thorough",)}
+
+def reach_run(name):
+    def compute(d):
+        sd = tlc.stage_dir("mc_" + name)
+        rc, out, wall = tlc.run_tlc(sd, "MC_Reach.tla", name + ".cfg", workers=1, xmx="8g", timeout=5400)
+        st = tlc.stats(out)
+        if st is None or "Model checking completed. No error has been found." not in out:
+            raise ToolError("TLC failed on %s:\n%s" % (name, out[-3000:]))
+        wit = [v for v in tlaval.printed_values(out) if v and v[0] == "WITNESS"]
+        return {"name": name, "generated": st["generated"], "distinct": st["distinct"], "wall_s": round(wall, 1),
+                "witnesses": [{"P": w[1], "op": w[2], "path": w[3]} for w in wit if w[4] == "body"]}
+    return cached(spec_key(), "mc_" + name, compute)
+
+def reach_stage(tier_, key):
+    runs = [reach_run(n) for n, tiers in REACH_RUNS.items() if tier_ in tiers]
+    def compute(d):
+        build_harness()
+        jobs = []
+        for r in runs:
+            for w in r["witnesses"]:
+                # a witness found for protocol p is also a path for every protocol whose table has all its opcodes
+                for P in range(6):
+                    jobs.append({"id": len(jobs) + 1, "cfg": corpus.cfg(P, 0, 0, ext=True, buf=True), "path": w["path"], "model_P": w["P"], "op": w["op"]})
+        jf = os.path.join(d, "reach_jobs.json"); json.dump(jobs, open(jf, "w"))
+        of = os.path.join(d, "reach_replay.ndjson")
+        run([PFV, "replay-paths", jf, of], timeout=1800)
+        res = {json.loads(l)["id"]: json.loads(l) for l in open(of) if l.strip()}
+        ok, failed = {}, []
+        for j in jobs:
+            r = res[j["id"]]
+            P = j["cfg"]["P"]
+            if r["failed_at"] == 0:
+                # the opcode actually written by the last step (the integer family picks its variant itself)
+                ok.setdefault(P, {})[r["emitted"][-1] if r["emitted"] else j["op"]] = j["path"]
+            elif P == j["model_P"]:
+                failed.append({"P": P, "op": j["op"], "path": j["path"], "failed_at": r["failed_at"]})
+        return {"replayed": len(jobs), "ok_pairs": {str(P): sorted(v) for P, v in ok.items()}, "failed_same_protocol": failed,
+                "samples": [{"P": P, "op": op, "path": path} for P, v in ok.items() for op, path in list(v.items())[:2]][:6]}
+    r = cached(key, "reach_%s" % tier_, compute)
+    r["model_runs"] = [{"config": x["name"], "distinct_states": x["distinct"], "states_generated": x["generated"], "wall_s": x["wall_s"],
+                        "witnesses": len(x["witnesses"])} for x in runs]
+    return r
